@@ -55,6 +55,25 @@ SerPub(node, version) ==
 SerPrv(node, version) ==
   Payload(version, node.depth, PfpOf(node), node.idx, node.c, <<0>> \o node.k)
 
+(***************************************************************************)
+(* Reading a payload back.  ParsePayload(p, asPrv, net) mirrors how the    *)
+(* library is used: the caller says which kind of node it expects          *)
+(* (PrvKeyNode.parse / PubKeyNode.parse) and which network flag to set; a  *)
+(* wallet import (ImportKind) takes both from the version prefix alone.    *)
+(* -> [ok, version, prv, keydata, c, depth, idx, pfp, net]                 *)
+(***************************************************************************)
+ParsePayload(p, asPrv, net) ==
+  IF Len(p) # 78 THEN [ok |-> FALSE]
+  ELSE [ok |-> TRUE, version |-> SubSeq(p, 1, 4), prv |-> asPrv, depth |-> p[5],
+        pfp |-> SubSeq(p, 6, 9), idx |-> SubSeq(p, 10, 13), c |-> SubSeq(p, 14, 45),
+        keydata |-> SubSeq(p, 46, 78), net |-> net]
+
+\* what a wallet import derives from the version prefix alone
+ImportKind(version) ==
+  IF ~KnownVersion(version) THEN [ok |-> FALSE]
+  ELSE LET t == TripleOf(version)
+       IN [ok |-> TRUE, prv |-> (t[1] = "prv"), net |-> t[2], bip |-> t[3]]
+
 \* field view of a 78-byte sequence (no validity judgement)
 Fields(p) == [version |-> SubSeq(p, 1, 4), depth |-> p[5], pfp |-> SubSeq(p, 6, 9),
               idx |-> SubSeq(p, 10, 13), c |-> SubSeq(p, 14, 45),
